@@ -22,10 +22,11 @@ FIELDS.update({
     'EventMessageBox': ['timescale', 'presentation_time_delta', 'presentation_time', 'event_duration', 'event_id'],
     'ContentProtectionSpecificBox': [],
     'SegmentIndexBox': ['reference_id', 'timescale', 'earliest_presentation_time', 'first_offset'],
+    'SampleAuxiliaryInformationSizesBox': ['aux_info_type', 'aux_info_type_parameter', 'sample_count', 'default_sample_info_size'],
 })
 SIDX_REF_FIELDS = ['ref_type', 'ref_size', 'duration', 'starts_with_SAP', 'SAP_type', 'SAP_delta_time']
 EMSG_SCHEME, EMSG_VALUE = 'urn:scte:scte35:2014:xml+bin', '5'
-FOURCC = {'SegmentIndexBox': 'sidx', 'ContentProtectionSpecificBox': 'pssh', 'TrackEncryptionBox': 'tenc', 'MediaHeaderBox': 'mdhd', 'EventMessageBox': 'emsg',
+FOURCC = {'SampleAuxiliaryInformationSizesBox': 'saiz', 'SegmentIndexBox': 'sidx', 'ContentProtectionSpecificBox': 'pssh', 'TrackEncryptionBox': 'tenc', 'MediaHeaderBox': 'mdhd', 'EventMessageBox': 'emsg',
           'MovieFragmentHeaderBox': 'mfhd', 'MovieExtendsHeaderBox': 'mehd', 'TrackExtendsBox': 'trex',
           'TrackFragmentDecodeTimeBox': 'tfdt', 'TrackFragmentHeaderBox': 'tfhd', 'TrackFragmentRunBox': 'trun'}
 
@@ -80,8 +81,31 @@ def build_header(variant, i):
     return {'env': env, 'old_env': dict(env), 'call': lambda: mp4.Mp4Atom.parse(src, None, options=mp4.Options())}
 
 
+def build_aux_json(cls_name, variant, i):
+    cls = getattr(mp4, cls_name)
+    fourcc = {'SampleAuxiliaryInformationSizesBox': 'saiz', 'SampleAuxiliaryInformationOffsetsBox': 'saio'}[cls_name]
+    aux = int(i['aux_info_type'])
+    kw = dict(atom_type=fourcc, position=0, size=0, version=0, flags=1 if variant == 'aux' else 0)
+    if variant == 'aux':
+        kw.update(aux_info_type=aux, aux_info_type_parameter=0)
+    if fourcc == 'saiz':
+        kw.update(default_sample_info_size=8, sample_count=0, sample_info_sizes=[])
+    else:
+        kw.update(offsets=[])
+    box = cls(**kw)
+    rebuilt = {}
+    env = {'self': box, 'aux_info_type': aux, 'has_attr': lambda o, k: k in o._fields}
+
+    def call():
+        rebuilt['box'] = mp4.Mp4Atom.fromJSON(box.toJSON())
+
+    return {'env': env, 'old_env': dict(env), 'call': call, 'post_env': lambda: {'self': rebuilt['box']}}
+
+
 def build(key, variant, i):
     qual = key.split(':')[1]
+    if qual.endswith('._to_json'):
+        return build_aux_json(qual.split('.')[0], variant, i)
     if qual == 'Mp4Atom.parse':
         return build_header(variant, i)
     if qual == 'Mp4Atom.encode':
@@ -198,6 +222,14 @@ def build(key, variant, i):
             extra_env.update({f'r{k}_{f}': v for f, v in vals.items()})
             refs.append(mp4.SegmentReference(**vals))
         kw['references'] = refs
+    if variant == 'SampleAuxiliaryInformationSizesBox':
+        nsz = int(parts[1][0])
+        sizes = [int(i[f'sz{j}']) for j in range(nsz)]
+        extra_env.update({f'sz{j}': v for j, v in enumerate(sizes)})
+        kw['sample_info_sizes'] = sizes
+        if parts[1].endswith('table'):
+            kw['default_sample_info_size'] = 0
+        extra_env.update(aux_info_type=kw['aux_info_type'], aux_info_type_parameter=kw['aux_info_type_parameter'])
     if variant == 'EventMessageBox':
         kw.update(scheme_id_uri=EMSG_SCHEME, value=EMSG_VALUE,
                   data=int(i['payload']).to_bytes(7, 'big') if payload and 0 <= int(i['payload']) < 256 ** 7 else None)
